@@ -139,6 +139,11 @@ HASHABLE_KEYS = ["'k'", "0", "1", "-7", "True", "None", "b'k'", "''", "1.5", "(1
                  "2**70", "'\\n'", "'\"'", "frozenset()", "-0.5", "'é'"]
 
 BOUNDARY = [s for s in gen.LEAF_SCHEMAS if "alias" not in s] + [
+    # declarable although contradictory, declared in either order: the printed (canonical) order must be declarable too
+    "schema.int.max(4).min(5)", "schema.int.min(5).max(4)", "schema.int.max(0).min(1)", "schema.float.max(1.0).min(2.0)",
+    "schema.float.min(2.0).max(1.0)", "schema.float.max(-0.5).min(0.0).precision(2)", "schema.float.precision(2).max(0.0).min(0.5)",
+    "schema.str.alphabet('ab').contains('ba')", "schema.str.contains('ba').alphabet('ab')", "schema.str.contains('z').alphabet('ab')",
+    "schema.list(schema.int.max(4).min(5))", "schema.dict({'a': schema.float.max(1.0).min(2.0)})",
     "schema.str.len(0, 5)", "schema.str.len(0, 0)", "schema.str.len(0, ...)", "schema.str.len(..., 0)",
     "schema.list.len(0, ...)", "schema.list.len(..., 0)", "schema.list(schema.int).len(0, 3)", "schema.str.len(0)",
     "schema.list([]).len(0)", "schema.list([]).len(0, ...)", "schema.list([...]).len(2)", "schema.str.len(5, 2)",
@@ -194,6 +199,20 @@ def gen_sources(ctx, n, depth):
                 src = f"make_required({a}, [{', '.join(repr(k) for k in sub)}])"
             else:
                 src = f"make_required({a})"
+        if r.random() < 0.12:
+            # a chain of refinement calls in an arbitrary order (incl. contradictory bounds declared
+            # max-before-min etc.): whatever the DSL lets through must print in a form it lets through
+            kind = r.choice(list(ds.FOCUS) * 3 + [k for k in ds.OPS if ds.OPS[k]])
+            pool = ds.FOCUS[kind][0] if (kind in ds.FOCUS and r.random() < 0.7) else ds.OPS[kind]
+            src = f"schema.{kind}" + "".join(ds.call_src(m, a) for m, a in r.sample(pool, r.randint(1, 3)))
+        if r.random() < 0.08:
+            # ONE sub-schema object placed at two different depths (the text is per position)
+            share = r.choice(["(lambda a: schema.dict({{'home': a, 'office': schema.dict({{'address': a}})}}))({})",
+                              "(lambda a: schema.list([a, schema.list([a, ...])]))({})",
+                              "(lambda a: schema.any(a, schema.list(a), schema.dict({{'k': schema.list([a])}})))({})",
+                              "(lambda a: schema.dict({{'x': a}}) + schema.dict({{'y': schema.dict({{'z': a}})}}))({})",
+                              "(lambda a: make_required(schema.dict({{optional('p'): a, 'q': schema.list([a])}})))({})"])
+            src = share.format(src)
         if r.random() < 0.25:
             wrap = r.choice(["schema.list([{}, ...])", "schema.list({})", "schema.dict({{'w': {}}})",
                              "schema.any({}, schema.none)", "schema.list([..., {}]).len(1, ...)",
